@@ -64,6 +64,8 @@ var vConcreteKeys = []string{
 	"!!!!!!!!!!!!!!!!!!!!!!==",
 	"dGhlIHNhbXBsZSBub25jZQ",
 	"",
+	"dGhlIHNhbXBsZSBub25jZQ==\u00a0", // the valid key followed by U+00A0: not base64 of 16 bytes (optional white space in a header is SP / HTAB)
+	"\u0085dGhlIHNhbXBsZSBub25jZQ==",
 }
 
 const vGUID = "258EAFA5-E914-47DA-95CA-C5AB0DC85B11"
@@ -76,12 +78,12 @@ func vRefAcceptKey(key string) string {
 func vRefHasToken(values []string, token string) bool {
 	found := false
 	for _, v := range values {
-		for _, t := range strings.Split(strings.TrimSpace(v), ",") {
+		for _, t := range strings.Split(strings.Trim(v, " \t"), ",") {
 			if vRefAsciiFold {
 				// concrete values: HTTP tokens are ASCII, and so is their case-insensitivity
-				found = vOr(found, vAsciiEqualFold(strings.TrimSpace(t), token))
+				found = vOr(found, vAsciiEqualFold(strings.Trim(t, " \t"), token))
 			} else {
-				found = vOr(found, strings.EqualFold(strings.TrimSpace(t), token))
+				found = vOr(found, strings.EqualFold(strings.Trim(t, " \t"), token))
 			}
 		}
 	}
@@ -91,6 +93,10 @@ func vRefHasToken(values []string, token string) bool {
 // vRefAsciiFold: the reference compares tokens with ASCII case folding written out (runs on concrete header values; on
 // symbolic strings the engine's summary of strings.EqualFold is the ASCII one already).
 var vRefAsciiFold bool
+
+// vRefAsciiTrim: on concrete keys the reference trims optional white space as HTTP defines it (SP, HTAB), not the
+// Unicode white space strings.TrimSpace removes.
+var vRefAsciiTrim bool
 
 func vSymValues(tag string, maxN int) []string {
 	n := vChoose(tag+".n", maxN+1)
@@ -114,7 +120,7 @@ func vSymRequest(maxVals int) (*http.Request, map[string][]string) {
 		// mixed case, and look-alikes that equal the token only under Unicode case folding (U+017F LONG S, U+212A KELVIN SIGN)
 		vRefAsciiFold = true
 		r := &http.Request{Method: "GET", ProtoMajor: 1, ProtoMinor: 1, Header: http.Header{}, Host: "example.com"}
-		ups := []string{"websocket", "WebSocket", "h2c, WEBSOCKET", "web\u017focket", "websoc\u212aet", "h2c, WEB\u017fOC\u212aET", "websockets"}
+		ups := []string{"websocket", "WebSocket", "h2c, WEBSOCKET", "web\u017focket", "websoc\u212aet", "h2c, WEB\u017fOC\u212aET", "websockets", "websocket\u00a0", "h2c,\u0085websocket"}
 		cons := []string{"Upgrade", "keep-alive, uPGRADE", "keep-alive", "upgrade\u017f"}
 		hv := map[string][]string{"Connection": {cons[vChoose("con", len(cons))]}, "Upgrade": {ups[vChoose("up", len(ups))]}, "Sec-Websocket-Version": {"13"}, "Sec-Websocket-Key": {vConcreteKeys[0]}}
 		for k, v := range hv {
@@ -123,6 +129,7 @@ func vSymRequest(maxVals int) (*http.Request, map[string][]string) {
 		return r, hv
 	}
 	if vParam("keyFocus", 0) == 1 {
+		vRefAsciiTrim = true
 		// everything but the key is a fixed valid upgrade request; the key is one of the concrete boundary keys, given
 		// once or twice
 		r := &http.Request{Method: "GET", ProtoMajor: 1, ProtoMinor: 1, Header: http.Header{}, Host: "example.com"}
@@ -171,7 +178,8 @@ func vRefRequestOK(r *http.Request, hv map[string][]string) bool {
 	if len(hv["Sec-Websocket-Key"]) != 1 {
 		return false
 	}
-	key := strings.TrimSpace(hv["Sec-Websocket-Key"][0])
+	// (optional white space of a header field is SP / HTAB: RFC 7230 3.2.3)
+	key := strings.Trim(hv["Sec-Websocket-Key"][0], " \t")
 	return vAnd(ok, vAnd(vUFBool("b64Decodes", key), vUFBool("b64Is16Bytes", key)))
 }
 
@@ -232,12 +240,19 @@ func verifC11_accept() {
 	}
 	if focus == 3 {
 		// concrete grid: the offer on one or two header lines, each a small token list; the server's preference list
-		lines := []string{"v1", "v2", "v1, v2", "V3,v1", ""}
+		// (k1/s1: a client offer that equals them only under Unicode case folding - U+212A KELVIN SIGN, U+017F LONG S - is
+		// another protocol)
+		vRefAsciiFold = true
+		lines := []string{"v1", "v2", "v1, v2", "V3,v1", "", "\u212a1, v1", "\u017f1"}
 		for i := 0; i < 1+vChoose("cprotoLines", 2); i++ {
-			cprotos = append(cprotos, lines[vChoose("cprotoLine", len(lines))])
+			if i == 0 {
+				cprotos = append(cprotos, lines[vChoose("cprotoLine", len(lines))])
+			} else {
+				cprotos = append(cprotos, lines[vChoose("cprotoLine", 5)])
+			}
 		}
 		vSetHeader(r.Header, "Sec-Websocket-Protocol", cprotos)
-		sp := []string{"v2", "v3", "v1"}
+		sp := []string{"v2", "v1", "k1", "s1"}
 		for i := 0; i < vChoose("sprotos", 3); i++ {
 			opts.Subprotocols = append(opts.Subprotocols, sp[vChoose("sproto", len(sp))])
 		}
@@ -288,15 +303,19 @@ func verifC11_accept() {
 		// subprotocol: the client's spelling of the first server-preferred protocol the client offered
 		var offered []string
 		for _, v := range cprotos {
-			for _, tk := range strings.Split(strings.TrimSpace(v), ",") {
-				offered = append(offered, strings.TrimSpace(tk))
+			for _, tk := range strings.Split(strings.Trim(v, " \t"), ",") {
+				offered = append(offered, strings.Trim(tk, " \t"))
 			}
 		}
 		want := ""
 		chosen := false
 		for _, sp := range opts.Subprotocols {
 			for _, cp := range offered {
-				hit := vAnd(vNot(chosen), strings.EqualFold(sp, cp))
+				eq := strings.EqualFold(sp, cp)
+				if vRefAsciiFold {
+					eq = vAsciiEqualFold(sp, cp)
+				}
+				hit := vAnd(vNot(chosen), eq)
 				if hit {
 					want = cp
 					chosen = true
@@ -368,7 +387,14 @@ var _ = errors.New
 
 // vRefSplitTokens: an independent comma / optional-white-space splitter over bytes (no strings package).
 func vRefSplitTokens(v []byte, sep byte) [][]byte {
-	isWS := func(c byte) bool { return c == ' ' || c == '\t' || c == '\n' || c == '\v' || c == '\f' || c == '\r' }
+	// list elements of a header field (',') are surrounded by optional white space = SP / HTAB (RFC 7230); the parameters
+	// of an extension (';') are trimmed of all ASCII white space by the library, which is its own choice
+	isWS := func(c byte) bool {
+		if sep == ',' {
+			return c == ' ' || c == '\t'
+		}
+		return c == ' ' || c == '\t' || c == '\n' || c == '\v' || c == '\f' || c == '\r'
+	}
 	trim := func(b []byte) []byte {
 		for len(b) > 0 && isWS(b[0]) {
 			b = b[1:]
